@@ -100,6 +100,17 @@ impl<'a, N: Normalizer> XmlSerializer<'a, N> {
         let r = match output {
             StartTagOpen(element) => {
                 let mut declarations = self.xot.namespace_declarations(node);
+                // an element in no namespace that itself declares a default
+                // namespace cannot be written: its unprefixed name would be
+                // read as a name in that namespace
+                if self.xot.namespace_for_name(element.name_id) == self.xot.no_namespace()
+                    && declarations.iter().any(|(prefix_id, namespace_id)| {
+                        *prefix_id == self.xot.empty_prefix()
+                            && *namespace_id != self.xot.no_namespace()
+                    })
+                {
+                    return Err(Error::MissingPrefix(String::new()));
+                }
                 // an element in no namespace cannot be written unprefixed in
                 // the scope of a default namespace: undeclare it
                 let undeclare = self.xot.namespace_for_name(element.name_id)
